@@ -411,6 +411,12 @@ def telnet_flood_cases(rng, n):
             rounds = []
             for k, evs in f["rounds_rle"]: rounds += [evs] * k
             out.append(dict(name="corpus:" + f["what"][:40], config=f["config"], rounds=rounds))
+    # every option number class once, in a short history (the option name table of the debug output has 40 entries; numbers go up to 255)
+    for opt in (0, 39, 40, 41, 49, 127, 200, 254, 255):
+        units = b"".join(bytes([255, c, opt]) for c in (253, 251, 254, 252))
+        rounds = [["ADV 1000", "CONNDONE conn0 ok"], ["ADV 1000", "IN conn0 " + units.hex()], ["ADV 1000"], ["ADV 1000", "IN conn0 " + b"login: ".hex()],
+                  ["ADV 1000"], ["ADV 1000"], ["ADV 1000", "IN conn0 " + b"ready\n".hex()]] + [["ADV 1000"]] * 3
+        out.append(dict(name="option:%d" % opt, config=TELNET_CONF % (10, "a"), rounds=rounds))
     for i in range(n):
         opt = rng.choice([1, 3, 6, 24, 31, 32, 33, 34, 35, 39, 3, 1, 0, 200])
         cmd = rng.choice([253] * 9 + [251, 254, 252])             # DO (answered) mostly; WILL / DONT / WONT are ignored
